@@ -79,7 +79,7 @@ def wrapper_rule(ck, prog, report=None, macros_text=None):
                     report("C01:wrapper-size-mismatch:%s:%s" % (name, pn), "W-wrapper-passes-its-own-sizes", "include:%s" % name,
                            "%s passes %s as %s of %s, but the operand that parameter describes (%s) receives %s: the library is told the size of a different object"
                            % (name, a, pn, callee.name, ops[0] if ops else "?", args[cps.index(ops[0])] if ops else "?"))
-            elif re.fullmatch(r"[A-Za-z_]\w*", a) and a in params and a != pn:
+            elif re.fullmatch(r"[A-Za-z_]\w*", a) and a in params and a != pn and a in cps:      # named like a *different* callee parameter: swapped
                 report("C01:wrapper-argument-order:%s:%s" % (name, pn), "W-wrapper-passes-its-own-sizes", "include:%s" % name,
                        "%s forwards its parameter %s as %s of %s (parameters of the same name exist on both sides: arguments swapped?)" % (name, a, pn, callee.name))
     return dict(wrappers=n, object_size_arguments=nb)
